@@ -198,6 +198,71 @@ pub fn ro_reply_scenario(r: &mut Report, seed: u64, flagged: bool) {
     let _ = crate::take_panics();
 }
 
+/// Part C2: a store acknowledgement flagged read-only is not counted.
+pub fn ro_ack_scenario(r: &mut Report, seed: u64, flagged: bool) {
+    r.eval();
+    let mut rng = Rng::new(seed);
+    let w = World::with_cfg(seed, NetCfg::default(), TraceLevel::Off);
+    let case = json!({"class":"ro-acks","seed":seed.to_string(),"flagged":flagged});
+    let ends: Vec<([u8; 20], SocketAddrV4)> = (0..3).map(|i| (rng.array(), SocketAddrV4::new(Ipv4Addr::new(65, 0, 0, 1 + i), 6881))).collect();
+    let socks: Vec<SockId> = ends.iter().map(|e| w.raw(e.1)).collect();
+    let (ends2, socks2) = (ends.clone(), socks.clone());
+    let stores = Rc::new(RefCell::new(0u64));
+    let stores2 = stores.clone();
+    let kind = rng.usize(3);
+    w.set_responder(Some(Box::new(move |w, sock, d| {
+        let Some(q) = Krpc::parse(&d.bytes) else { return true };
+        if q.y != b'q' {
+            return true;
+        }
+        let idx = socks2.iter().position(|s| *s == sock).unwrap_or(0);
+        let is_store = matches!(q.q.as_deref(), Some("put") | Some("announce_peer") | Some("announce_signed_peer"));
+        let mut msg = if is_store {
+            *stores2.borrow_mut() += 1;
+            // ack, or an error: both must be ignored when flagged
+            if kind == 2 {
+                crate::krpc::error(&q.t, 301, "x")
+            } else {
+                response(&q.t, B::dict(vec![("id", B::bytes(&ends2[idx].0))]), Some(&d.from), Some(&VERSION_RS6))
+            }
+        } else {
+            response(&q.t, B::dict(vec![("id", B::bytes(&ends2[idx].0)), ("nodes", B::Bytes(nodes_bytes(&ends2))), ("token", B::bytes(b"tokn"))]), Some(&d.from), Some(&VERSION_RS6))
+        };
+        if is_store && flagged {
+            msg.set("ro", B::Int(1));
+        }
+        w.raw_send(sock, &msg.encode(), d.from);
+        true
+    })));
+    let boots: Vec<SocketAddrV4> = ends.iter().map(|e| e.1).collect();
+    let x = w.spawn(NodeSpec::client(Ipv4Addr::new(65, 0, 9, 9), &boots)).expect("x");
+    let signer = dht::SigningKey::from_bytes(&rng.array::<32>());
+    let res: Option<String> = match kind {
+        0 => w.block_on(x.adht.put_immutable(b"some value"), 120 * SEC).map(|r| format!("{r:?}")),
+        1 => w.block_on(x.adht.announce_peer(Id::from(rng.array::<20>()), None), 120 * SEC).map(|r| format!("{r:?}")),
+        _ => w.block_on(x.adht.put_mutable(dht::MutableItem::new(&signer, b"v", 2, None), Some(1)), 120 * SEC).map(|r| format!("{r:?}")),
+    };
+    let got = res.clone().unwrap_or_else(|| "did-not-complete".into());
+    if *stores.borrow() > 0 {
+        if flagged {
+            // every store reply was flagged read-only: nothing may be counted - neither acks nor 301s
+            if got.starts_with("Ok") {
+                r.violation("ro-ack/put-ok-on-read-only-acks", "a put returned Ok although every acknowledgement was flagged ro=1", case.clone(), json!({"result": got}));
+            } else if got.contains("CasFailed") {
+                r.violation("ro-ack/error-reply-counted", "a 301 reply flagged ro=1 was counted", case.clone(), json!({"result": got}));
+            }
+            r.count("ro_ack_scenarios");
+        } else if (kind < 2 && got.starts_with("Ok")) || (kind == 2 && got.contains("CasFailed")) {
+            r.count("control_unflagged_acks_counted");
+        } else {
+            r.count("control_unflagged_acks_not_counted");
+        }
+        r.nontrivial(mix(seed, 0xac + flagged as u64));
+    }
+    drop(x);
+    let _ = crate::take_panics();
+}
+
 /// Part D: adaptive mode timeline (> 32 virtual minutes).
 /// variant 0 public reachable, 1 behind NAT, 2 reachable but responders vote a wrong address,
 /// 3 explicit server mode, 4 public_ip configured (adaptive)
@@ -339,6 +404,7 @@ pub fn run(a: &Args) -> Report {
         match c["class"].as_str() {
             Some("adaptive") => adaptive_scenario(&mut r, seed, c["variant"].as_u64().unwrap_or(0) as usize),
             Some("ro-replies") => ro_reply_scenario(&mut r, seed, c["flagged"].as_bool().unwrap_or(true)),
+            Some("ro-acks") => ro_ack_scenario(&mut r, seed, c["flagged"].as_bool().unwrap_or(true)),
             _ => modes_scenario(&mut r, seed),
         }
         return r;
@@ -353,6 +419,10 @@ pub fn run(a: &Args) -> Report {
     for i in 0..per(320, 8000) {
         let (s, f) = (rng.u64(), i % 4 != 0);
         super::guarded(&mut r, json!({"class":"ro-replies","seed":s.to_string(),"flagged":f}), |r| ro_reply_scenario(r, s, f));
+    }
+    for i in 0..per(320, 8000) {
+        let (s, f) = (rng.u64(), i % 4 != 0);
+        super::guarded(&mut r, json!({"class":"ro-acks","seed":s.to_string(),"flagged":f}), |r| ro_ack_scenario(r, s, f));
     }
     for i in 0..per(80, 1600) {
         let (s, v) = (rng.u64(), (i + a.shard) as usize % 5);
